@@ -5,6 +5,12 @@ NOTES = ("Technique: machine-checked proof in Lean 4 of theorems about a hand-wr
 NOT_APPLICABLE_REASON = {}
 
 CLAIMS = {
+ "C13": {
+  "text": "Proved in Lean for every tree satisfying the array / map invariants (several statements for ANY tree): each enumeration flavour yields exactly toList - arrays in index order, maps in the canonical digest order with full collisions in insertion order; range iteration is the slice and invalid ranges get the exact error; the loaded-value iterators equal toList when everything is loaded and yield a Sublist for any set of loaded slabs; bulk pop is the reverse; overwriting the current element during mutable iteration neither skips nor repeats (maps: relative to the in-place effect of Set, a stated hypothesis). Tie: ~2800 iterator runs per seed replayed on the model incl. partial loads read from the real storage.",
+  "design_ref": "DESIGN.md 7/C13, 13",
+  "note": "Partial: mutation of nested containers during iteration is oracle-only; map overwrite theorem is relative to OverwriteInPlace; map read-only iteration needs leafIdsOk.",
+  "technique": "Lean 4 proofs over transcribed iterator state machines (structural recursion / bounded fuel) + iterator-output correspondence with partial loads",
+ },
  "C02": {
   "text": "Lean theorems prove that the map model (a transcription of map.go, map_data_slab.go, map_metadata_slab.go, map_elements_hashkey.go, map_elements_nokey.go, map_element.go: sorted digest tables, inline / external collision groups, last-level lists, split / merge / lend / borrow, routing by first digest, root split and promotion) refines dictionary operations for EVERY digest function, every legal slab size, every number of digest levels: returned values, previous values, removed pairs, count, key-not-found exactly for absent keys, and preserves the map invariant. Tied to the code by replaying every operation of histories with real digests, the pooled digester under genuine collisions and adversarial digest tables, comparing observations, storage effects and structural dumps incl. collision-group slabs.",
   "design_ref": "DESIGN.md 7/C02, 13",
